@@ -307,7 +307,7 @@ func (sc *scen) backlog() {
 	var calls []pending
 	for i := 0; i < b+extra; i++ {
 		ctx, cancel := context.WithCancel(context.Background())
-		w := watch(fmt.Sprintf("OpenStream#%d", i+1), func() (int, error) {
+		w := watch("OpenStream", func() (int, error) {
 			st, err := m.OpenStream(ctx)
 			if st != nil {
 				st.Close()
@@ -371,7 +371,9 @@ func (sc *scen) backlog() {
 			continue
 		}
 		calls[i].cancel()
-		sc.expect(w, "context-cancelled", time.Now(), true)
+		if !sc.expect(w, "context-cancelled", time.Now(), true) {
+			break // one witness is enough; every further one would cost another bound
+		}
 	}
 	for _, c := range calls {
 		c.cancel()
